@@ -66,9 +66,10 @@ type apCase struct {
 	tktSName      []string
 	tktKvno       int // -1 = as it should be; 0 = absent
 	invalid       bool
-	clearAppended bool          // the EncTicketPart appended in the clear to the ticket (see mintAPReq)
-	renewable     bool          // RENEWABLE flag set (renew-till is a day ahead in every case)
-	startOff      time.Duration // starttime = now + startOff (noStart: absent)
+	clearCaddr    []types.HostAddress // ... with this address list instead of the sealed one
+	clearAppended bool                // the EncTicketPart appended in the clear to the ticket (see mintAPReq)
+	renewable     bool                // RENEWABLE flag set (renew-till is a day ahead in every case)
+	startOff      time.Duration       // starttime = now + startOff (noStart: absent)
 	noStart       bool
 	endOff        time.Duration
 	startYears    int // starttime / endtime moved by whole years (beyond what a Duration can express)
@@ -124,6 +125,7 @@ func (c apCase) describe() string {
 	add(c.tktKvno != -1, fmt.Sprintf("tktkvno=%d", c.tktKvno))
 	add(c.invalid, "invalid")
 	add(c.clearAppended, "cleartext-encticketpart-appended")
+	add(c.clearCaddr != nil, "cleartext-caddr")
 	add(c.renewable, "renewable")
 	add(c.noStart, "nostart")
 	add(c.startOff != d.startOff, fmt.Sprintf("start=%v", c.startOff))
@@ -333,7 +335,11 @@ func mintAPReqKey(m *Model, rng *RNG, c apCase, now time.Time) (messages.APReq, 
 	if err == nil && c.clearAppended {
 		// the EncTicketPart once more, in the clear, as a fifth element of the Ticket SEQUENCE (the decoder fills
 		// Ticket.DecryptedEncPart from it: nothing the service may ever rely on)
-		clear, e1 := asn1.Marshal(etp)
+		etpClear := etp
+		if c.clearCaddr != nil {
+			etpClear.CAddr = c.clearCaddr
+		}
+		clear, e1 := asn1.Marshal(etpClear)
 		tb, e2 := tkt.Marshal()
 		eb2, e3 := ea.Marshal()
 		if e1 == nil && e2 == nil && e3 == nil {
